@@ -80,13 +80,15 @@ func startDeadlockWatch() {
 		for {
 			time.Sleep(500 * time.Millisecond)
 			now := c14CPU()
-			if now-last < 2*time.Millisecond {
+			// "no CPU": less than 5 % of one core (a race-instrumented runtime keeps a little background activity going) - and every
+			// goroutine parked at each of the last 20 looks
+			if now-last < 25*time.Millisecond && c14AllBlocked() {
 				idle++
 			} else {
 				idle = 0
 			}
 			last = now
-			if idle >= 20 && c14AllBlocked() {
+			if idle >= 20 {
 				buf := make([]byte, 1<<20)
 				buf = buf[:runtime.Stack(buf, true)]
 				fmt.Fprintf(realStdout, "\nDEADLOCK-IN-CHILD: no CPU consumed for 10 s and every goroutine is blocked on a channel or lock\n%s\n", buf)
